@@ -229,6 +229,14 @@ static void check_observers(const char *api, const char *reg, const varintBitmap
             break;
         }
     }
+    {
+        varintBitmapStats st;
+        memset(&st, 0, sizeof st);
+        varintBitmapGetStats(vb, &st);
+        if (st.cardinality != card || st.sizeBytes != varintBitmapSizeBytes(vb) || st.sizeBytes < sizeof(varintBitmap)) {
+            BFAIL("model_divergence", "%s: after %s: GetStats(%s) cardinality %u model %u, sizeBytes %zu", cur_hist, api, reg, st.cardinality, card, st.sizeBytes);
+        }
+    }
     /* iterator: ascending, duplicate free, exactly the model */
     varintBitmapIterator it = varintBitmapCreateIterator(vb);
     uint32_t n = 0;
@@ -391,6 +399,7 @@ static void apply(state *s, int oi, int check) {
         break;
     }
     case O_CODEC: {
+        varintBitmapOptimize(s->A); /* must never change the set */
         size_t len = varintBitmapEncode(s->A, encbuf);
         /* exact-size heap copy so that a decoder over-read is visible to the sanitised build */
         uint8_t *copy = malloc(len ? len : 1);
